@@ -1,4 +1,8 @@
 #[cfg(not(kani))]
+#[global_allocator]
+static A: vtotal::alloc_track::Tracking = vtotal::alloc_track::Tracking;
+
+#[cfg(not(kani))]
 fn main() {
     vtotal::vsrc::replay_main(vtotal::lookup)
 }
